@@ -119,7 +119,7 @@ def _digest(tree):
     L = _lib()
     leaves = L["jax"].tree_util.tree_leaves(tree)
     if len(leaves) != 1:
-        raise Mismatch(f"checkpoint state has {len(leaves)} leaves, the module has 1")
+        raise Mismatch(f"checkpoint state has {len(leaves)} leaves, the module has 1", code="checkpoint:leaf_count")
     return int(round(float(L["np"].asarray(leaves[0]).reshape(-1)[0])))
 
 
@@ -230,24 +230,24 @@ def step(ad: Ad, op, args, exp, pre=None, post=None):
     if op == "RecordStat":
         # StdoutLogger "records" to stdout: one line per member with the effective location
         if len(out) != n_stdout:
-            raise Mismatch(f"stdout: {len(out)} lines printed for record_stat, {n_stdout} StdoutLogger members")
+            raise Mismatch(f"stdout: {len(out)} lines printed for record_stat, {n_stdout} StdoutLogger members", code="stdout:line_count")
         for l in out:
             mm = _LINE.match(l)
             if not mm:
-                raise Mismatch(f"stdout: unparsable statistics line {l!r}")
+                raise Mismatch(f"stdout: unparsable statistics line {l!r}", code="stdout:unparsable_line")
             got = (int(mm["ep"]), int(mm["step"]), mm["key"].strip(), mm["val"])
             want = (exp["ep"], exp["step"], args["key"], "{0:.3f}".format(args["v"]))
             if got != want:
-                raise Mismatch(f"stdout: line reports (episode, step, key, value) = {got}, model {want}")
+                raise Mismatch(f"stdout: line reports (episode, step, key, value) = {got}, model {want}", code="stdout:line_location")
     elif out:
-        raise Mismatch(f"stdout: unexpected output on {op}: {out[0]!r}")
+        raise Mismatch(f"stdout: unexpected output on {op}: {out[0]!r}", code="stdout:unexpected_output")
 
 
 def _ck_digest(ad, lg, path):
     if not ad.real:
         p = os.path.normpath(path)
         if p not in lg.checkpointer.saved:
-            raise Mismatch(f"checkpoint_path lists {os.path.basename(p)} but nothing was saved there")
+            raise Mismatch(f"checkpoint_path lists {os.path.basename(p)} but nothing was saved there", code="checkpoint:listed_not_saved")
         return lg.checkpointer.saved[p]
     if path not in ad.restored:
         ad.restored[path] = restore_digest(path)
@@ -257,14 +257,14 @@ def _ck_digest(ad, lg, path):
 def restore_digest(path):
     L = _lib()
     if not os.path.isdir(path):
-        raise Mismatch(f"listed checkpoint {os.path.basename(os.path.normpath(path))} does not exist on disk")
+        raise Mismatch(f"listed checkpoint {os.path.basename(os.path.normpath(path))} does not exist on disk", code="checkpoint:listed_missing_on_disk")
     ck = _CACHE.get("restorer")
     if ck is None:
         ck = _CACHE["restorer"] = L["ocp"].StandardCheckpointer()
     try:
         tree = ck.restore(path)
     except Exception as e:
-        raise Mismatch(f"listed checkpoint is not restorable: {type(e).__name__}: {str(e)[:100]}")
+        raise Mismatch(f"listed checkpoint is not restorable: {type(e).__name__}: {str(e)[:100]}", code="checkpoint:not_restorable")
     return _digest(tree)
 
 
@@ -282,15 +282,15 @@ def project_member(ad: Ad, kind, lg):
     if kind in ("memory", "standard"):
         for k in lg.stats:
             if k not in r["stats"]:
-                raise Mismatch(f"{kind}: statistic recorded under unknown key {k!r}")
+                raise Mismatch(f"{kind}: statistic recorded under unknown key {k!r}", code="stats:unknown_key")
             xe, y = lg.get_stat(k, "episode")
             xs, y2 = lg.get_stat(k, "step")
             xt, y3 = lg.get_stat(k, "time")
             if not (len(xe) == len(xs) == len(xt) == len(y) == len(y2) == len(y3)) or list(y) != list(y2) or list(y) != list(y3):
-                raise Mismatch(f"{kind}: get_stat({k!r}) returns inconsistent x/y for the three x-keys")
+                raise Mismatch(f"{kind}: get_stat({k!r}) returns inconsistent x/y for the three x-keys", code=f"{kind}:get_stat:inconsistent_xkeys")
             xe0, y0 = lg.get_stat(k)  # default x-key is the episode
             if list(xe0) != list(xe):
-                raise Mismatch(f"{kind}: get_stat default x-key is not the episode")
+                raise Mismatch(f"{kind}: get_stat default x-key is not the episode", code="get_stat:default_xkey")
             r["stats"][k] = [[int(v), int(e), int(s)] for v, e, s in zip(y, xe, xs)]
     if kind in ("standard", "orbax"):
         for k, v in lg.epoch.items():
@@ -298,15 +298,15 @@ def project_member(ad: Ad, kind, lg):
         for k, v in lg.checkpoint_frequencies.items():
             r["freq"][k] = int(v)
         if set(lg.checkpoint_path) != set(lg.checkpoint_frequencies):
-            raise Mismatch(f"{kind}: checkpoint_path keys differ from the keys with a defined frequency")
+            raise Mismatch(f"{kind}: checkpoint_path keys differ from the keys with a defined frequency", code="checkpoint_path:keys")
         for k, paths in lg.checkpoint_path.items():
             for p in paths:
                 base = os.path.basename(os.path.normpath(p))
                 if os.path.dirname(os.path.normpath(p)) != os.path.normpath(lg.checkpoint_dir):
-                    raise Mismatch(f"{kind}: checkpoint {p} is outside checkpoint_dir")
+                    raise Mismatch(f"{kind}: checkpoint {p} is outside checkpoint_dir", code="checkpoint:outside_dir")
                 mm = (_ORBAX_NAME if kind == "orbax" else _STD_NAME).match(base)
                 if not mm or mm["key"] != k:
-                    raise Mismatch(f"{kind}: checkpoint name {base!r} does not carry key {k!r} and its step/epoch")
+                    raise Mismatch(f"{kind}: checkpoint name {base!r} does not carry key {k!r} and its step/epoch", code=f"{kind}:checkpoint_name")
                 dig = _ck_digest(ad, lg, p)
                 if kind == "orbax":
                     r["ck"][k].append([int(mm["step"]), int(mm["epoch"]), dig])
@@ -323,7 +323,7 @@ def project_member(ad: Ad, kind, lg):
 
 def project(ad: Ad):
     if ad.wrap and ad.obj.n_episodes != ad.members[0].n_episodes:
-        raise Mismatch("LoggerList.n_episodes differs from its first member's")
+        raise Mismatch("LoggerList.n_episodes differs from its first member's", code="LoggerList:n_episodes")
     return {"m": [project_member(ad, k, o) for k, o in zip(ad.kinds, ad.members)]}
 
 
@@ -393,11 +393,15 @@ def real_run(G, path, kinds, keys, wrap, track, rep, name, tag, experiment=False
                 if graph.canon(got) != k2:
                     raise Mismatch("state after step differs from model", got=got, want=want)
             except Mismatch as m:
-                v = {"what": m.what, "detail": m.detail, "path": done}
+                v = {"what": m.what, "code": getattr(m, "code", None), "detail": m.detail, "path": done}
                 rep.violation(_key(name + ":real", v), f"{name} with real orbax writes: {m.what}", _replay(kinds, keys, wrap, track, True, done, want))
                 return writes
             except Exception as ex:
-                v = {"what": f"exception {type(ex).__name__}: {str(ex)[:100]}", "detail": {}, "path": done}
+                import traceback
+
+                tb = traceback.extract_tb(ex.__traceback__)
+                where = f"{tb[-1].filename.split('/')[-1]}:{tb[-1].name}" if tb else "?"
+                v = {"what": f"exception {type(ex).__name__} in {where}: {str(ex)[:100]}", "code": f"exception:{type(ex).__name__}:{where}", "detail": {}, "path": done}
                 rep.violation(_key(name + ":real", v), f"{name} with real orbax writes: {v['what']}", _replay(kinds, keys, wrap, track, True, done, want))
                 return writes
         # final pass: every listed path restorable NOW (nothing overwritten / removed later)
@@ -411,9 +415,9 @@ def real_run(G, path, kinds, keys, wrap, track, rep, name, tag, experiment=False
                     try:
                         dg = restore_digest(p)
                         if dg != ad.restored.get(p):
-                            raise Mismatch(f"checkpoint content changed after it was listed ({ad.restored.get(p)} -> {dg})")
+                            raise Mismatch(f"checkpoint content changed after it was listed ({ad.restored.get(p)} -> {dg})", code="checkpoint:content_changed")
                     except Mismatch as m:
-                        v = {"what": m.what, "detail": {}, "path": done}
+                        v = {"what": m.what, "code": getattr(m, "code", None), "detail": {}, "path": done}
                         rep.violation(_key(name + ":real:final", v), f"{name} final restore: {m.what}", _replay(kinds, keys, wrap, track, True, done, None))
     finally:
         for lg in (ad.members if ad else ()):
@@ -605,7 +609,7 @@ def run(rep):
                     rep.sample({"real_orbax_behaviour": [[op, a] for op, a, _, _ in paths[k]], "final": {m["kind"]: m["ck"] for m in G.state[k]["m"] if m["kind"] in ("standard", "orbax")}})
         rep.extra["real_checkpoint_dirs_written_and_restored"] = writes
         rep.extra["real_behaviours"] = n_real
-        if writes == 0:
+        if writes == 0 and not rep.violations:
             raise tlc.MachineryError("no real checkpoint was written")
 
         lap("real_orbax")
